@@ -219,7 +219,39 @@ fn data_number_faults(orig: &[u8], dense: bool) -> Vec<(String, Vec<u8>)> {
     for (bi, (li, ri, bytes)) in parts.blocks.iter().enumerate() {
         let key = &parts.keys[*li];
         let is_win = key.contains("WIN");
-        if !(is_win || (dense && key.contains("TREE"))) {
+        if !(is_win || key.contains("TREE")) {
+            continue;
+        }
+        // trees: every brace block emptied (all node lines removed, braces kept), and reduced to its first node line
+        if key.contains("TREE") {
+            let mut at = 0usize;
+            let mut k = 0usize;
+            while let Some(open) = bytes[at..].windows(2).position(|w| w == b"{\n").map(|p| p + at) {
+                let Some(close) = bytes[open..].windows(2).position(|w| w == b"}\n" || w == b"} ").map(|p| p + open).or_else(|| bytes[open..].iter().position(|c| *c == b'}').map(|p| p + open)) else { break };
+                let inner = &bytes[open + 2..close];
+                // the "QS name { patterns }" lines also use braces but on one line: only multi-line blocks are trees
+                if !inner.is_empty() && !bytes[..open].ends_with(b"QS") {
+                    for variant in 0..2 {
+                        let keep: Vec<u8> = if variant == 0 { Vec::new() } else { inner.split(|c| *c == b'\n').next().map(|l| [l, b"\n"].concat()).unwrap_or_default() };
+                        if variant == 1 && keep.len() >= inner.len() {
+                            continue;
+                        }
+                        let mut nb = bytes[..open + 2].to_vec();
+                        nb.extend(&keep);
+                        nb.extend(&bytes[close..]);
+                        let mut p2 = crate::gen::cond::Parts { head: parts.head.clone(), keys: parts.keys.clone(), blocks: parts.blocks.clone() };
+                        p2.blocks[bi].2 = nb;
+                        out.push((format!("tree block {}#{} tree {} {}", key, ri, k, if variant == 0 { "emptied (braces kept)" } else { "cut down to its first node line" }), crate::gen::cond::assemble(&p2, &order, false)));
+                    }
+                    k += 1;
+                }
+                at = close + 1;
+                if !dense && k >= 3 {
+                    break;
+                }
+            }
+        }
+        if !(is_win || dense) {
             continue;
         }
         let mut i = 0;
@@ -437,7 +469,7 @@ pub fn child(args: &[String]) -> i32 {
 
 pub fn run(tier: Tier) -> i32 {
     let rep = Report::new("C18", tier, "fault_enumeration");
-    rep.set_rule("fault enumeration on 6 generated voice files (about 2-4 kB: 2/3 streams, GV on/off, single-leaf and 3-leaf trees, quoted/unquoted leaves) and the bundled voice: singles = truncation (every byte offset on generated files; every section/range boundary +-1 and a 64-point lattice on V0), every header number replaced by each of 17 values (incl. non-ASCII Unicode digits), every header line deleted/duplicated/emptied, every range inverted, every pair of ranges swapped, tree/question/window tokens renamed or removed (every occurrence on generated files), every number inside window rows (and, on generated files, inside tree text) replaced by each of {0, 4e18, 1e12, a 20-digit number, -1} with the ranges rewritten to match, every text byte of generated files replaced by each of 9 bytes, NUL/0xFF/partial-UTF-8 bytes in every header section, PDF count words overwritten; doubles (thorough; first generated file in quick) = all pairs of reduced header faults on different lines, reduced header fault x truncation (stride 7), reduced header fault x token fault; each case loaded via the real loader + VoiceSet + Condition::load_model in a child process (RLIMIT_AS 3 GiB, 90 s per case); distinct = distinct fault; non-trivial = faulted bytes differ from the base");
+    rep.set_rule("fault enumeration on 6 generated voice files (about 2-4 kB: 2/3 streams, GV on/off, single-leaf and 3-leaf trees, quoted/unquoted leaves) and the bundled voice: singles = truncation (every byte offset on generated files; every section/range boundary +-1 and a 64-point lattice on V0), every header number replaced by each of 17 values (incl. non-ASCII Unicode digits), every header line deleted/duplicated/emptied, every range inverted, every pair of ranges swapped, tree/question/window tokens renamed or removed (every occurrence on generated files), every number inside window rows (and, on generated files, inside tree text) replaced by each of {0, 4e18, 1e12, a 20-digit number, -1} with the ranges rewritten to match, every tree's brace block emptied or cut down to its first node line, every text byte of generated files replaced by each of 9 bytes, NUL/0xFF/partial-UTF-8 bytes in every header section, PDF count words overwritten; doubles (thorough; first generated file in quick) = all pairs of reduced header faults on different lines, reduced header fault x truncation (stride 7), reduced header fault x token fault; each case loaded via the real loader + VoiceSet + Condition::load_model in a child process (RLIMIT_AS 3 GiB, 90 s per case); distinct = distinct fault; non-trivial = faulted bytes differ from the base");
     rep.assume("at most two simultaneous faults; V0's binary PDF payload is only truncated and overwritten at its count words");
     let b = bases();
     let outcomes: Mutex<BTreeMap<String, (u64, String)>> = Mutex::new(BTreeMap::new());
